@@ -76,7 +76,12 @@ TOp == /\ l <= Len(Trace) /\ Ev.ev \in Ops /\ ~wild /\ ~Ev.stale /\ l' = l + 1
               \* only a minimal set of deviations, fully modelled explanations before unmodelled ones
               Exact(c) == IF c.wild THEN FALSE ELSE ~c.p.wild
               tier  == IF \E c \in okAlt : Exact(c) THEN {c \in okAlt : Exact(c)} ELSE okAlt
-              pick  == IF Explains(prim) THEN {prim}
+              \* alternatives that look exactly like the primary outcome but leave a different state behind
+              \* (as built, Seek moves an open reader with the caller's (offset, whence): once an inverted
+              \* SeekEnd has put the reader elsewhere, relative seeks keep it there unnoticed): both are
+              \* followed, a later Read tells them apart
+              ambAlt == {c \in okAlt : Exact(c) /\ ~prim.wild /\ ~prim.p.wild /\ c.r = prim.r /\ c.p = prim.p /\ c.st # prim.st}
+              pick  == IF Explains(prim) THEN {prim} \cup ambAlt
                        ELSE {c \in tier : ~\E c2 \in tier : c2.devs # c.devs /\ c2.devs \subseteq c.devs}
               \* identity-hash prefix: (a) re-rooting outside Sync adds an oversized identity block: the call
               \* fails with that error, or succeeds and an observation fails with it; (b) a branch node was
